@@ -173,6 +173,8 @@ class World:
         self.pool = {}          # kind -> [uid]
         self.secret = {}        # uid -> bytes
         self.version = (1, 2)
+        self.written = []       # (step, variant, requested level, text of the server's own log file)
+        self.level_checks = []  # effective logger levels read back after KmipServer start-up
         self.scratch = []       # temporary paths (masked in the secret-swap comparison)
         self.user = 'alice'
 
